@@ -34,7 +34,9 @@ ASSUMPTIONS = [
 
 
 def cases():
-    return st.fixed_dictionaries({'tape': oalsyn.tapes(900, 120), 'order': st.lists(st.integers(0, 10 ** 6), max_size=6)})
+    # the keywords of the bodies are written in drawn spellings (the population must not depend on them)
+    return st.fixed_dictionaries({'tape': oalsyn.tapes(900, 120), 'order': st.lists(st.integers(0, 10 ** 6), max_size=6),
+                                  'kwcase': st.one_of(st.just([0]), st.lists(st.integers(0, 3), min_size=1, max_size=9))})
 
 
 _ooa = {}
@@ -457,7 +459,7 @@ def check_action(fx, c, info, res_classes):
 
 def run_case(case, res=None):
     try:
-        fx = prebuildfix.Fixture(case['tape'], case['order'])
+        fx = prebuildfix.Fixture(case['tape'], case['order'], case=case.get('kwcase'))
     except Exception as e:
         raise Violation('fixture-exception:' + exc_bucket(e), case, repr(e))
     info = dict(case, bodies=fx.source)
